@@ -40,6 +40,7 @@ structure Req where
   gpanic : Option (Nat × Nat) := none
   skewGen : Nat := 0
   skewCall : Nat := 0
+  bar : Bool := false           -- barrier waits are part of the traces (instrumented Barrier)
   deriving Repr, Inhabited
 
 def optNat (s : String) : Option (Option Nat) := if s = "-" then some none else s.toNat?.map some
@@ -72,6 +73,7 @@ def parseReq (args : List String) : Option Req := do
         | some [a, b, c, d] => r := { r with aGen := a, aCall := b, aDrop := c, aSize := d }
         | _ => none
       | "cold" => r := { r with cold := v = "1" }
+      | "bar" => r := { r with bar := v = "1" }
       | "gpanic" =>
         if v = "-" then pure () else
         match (v.splitOn ":").mapM String.toNat? with
@@ -145,6 +147,7 @@ structure SmpSt where
   al : Alloc := {}
   total : Nat := 0
   dead : Bool := false         -- this thread's benchmarked function panicked: it only keeps its barrier appointments
+  waits : Nat := 0             -- barrier appointments kept so far in this sample
 
 /-- effect of one event of the sample model on the virtual clock, the trace and the tallies -/
 def interp (r : Req) (t : Nat) (x : SmpSt) : SampleLoop.Ev → SmpSt
@@ -184,7 +187,12 @@ def interp (r : Req) (t : Nat) (x : SmpSt) : SampleLoop.Ev → SmpSt
     let oid := if r.shape.oZst then 0 else x.ids[i]!
     { x with sim := (x.sim.ev t s!"o{oid}").adv t r.cDropOut }
   | .dropIn i => { x with sim := (x.sim.ev t s!"i{x.ids[i]!}").adv t r.cDropIn }
-  | .syncStart | .syncEnd | .snapshot => x
+  | .syncStart =>
+    -- `sync_threads(true)`: wait, clear the tally, wait (only with more than one thread)
+    if r.bar ∧ r.threads > 1 then { x with sim := (((x.sim.ev t "W").ev t "w").ev t "W").ev t "w", waits := x.waits + 2 } else x
+  | .syncEnd =>
+    if r.bar ∧ r.threads > 1 then { x with sim := (x.sim.ev t "W").ev t "w", waits := x.waits + 1 } else x
+  | .snapshot => x
 
 /-- one sample on thread `t` with `size` iterations: the events of `SampleLoop.trace`, replayed until
     the end or until the benchmarked function panics; returns start, end, tallies, Σ input counts -/
@@ -192,6 +200,10 @@ def sample (r : Req) (t size : Nat) (s : Sim) : Sim × Nat × Nat × Alloc × Na
   let evs := SampleLoop.trace r.shape (if r.byRef then .refs else .values)
     (if r.ic ∧ r.hasInputs then [3] else []) size
   let x := evs.foldl (fun x e => if x.dead then x else interp r t x e) { sim := s }
+  -- an unwinding thread keeps its remaining appointments (three per sample) so that nobody hangs
+  let x : SmpSt := if x.dead && r.bar && decide (r.threads > 1) then
+      (List.range (3 - x.waits)).foldl (fun x _ => { x with sim := (x.sim.ev t "W").ev t "w" }) x
+    else x
   (x.sim, x.start, x.stop, x.al, x.total)
 
 structure Out where
@@ -255,20 +267,88 @@ def showTraces (sim : Sim) : String :=
 def sliceMiddle {α} (l : List α) : List α :=
   if l.length = 0 then [] else if l.length % 2 = 0 then (l.drop (l.length / 2 - 1)).take 2 else (l.drop (l.length / 2)).take 1
 
+/-- the samples `compute_stats` attaches figures to: the first and last of the duration-sorted list
+    and its middle one or two -/
+structure Picks where
+  first : Rec
+  last : Rec
+  mid : List Rec
+  deriving Inhabited
+
+def allocGetters : List (Alloc → Nat) :=
+  [(·.maxC), (·.maxS), (·.growC), (·.growS), fun _ => 0, fun _ => 0, (·.allocC), (·.allocS), (·.deallocC), (·.deallocS)]
+
+open SoftFloat in
+/-- figures under "fastest" (or, with the last sample, "slowest"): one per allocation column, then the counter -/
+def edgeKey (s : Nat) (x : Rec) : List String :=
+  (allocGetters.map fun g => toString (div (ofNat (g x.alloc)) (ofNat s))) ++ [toString x.itemsPerIter]
+
+open SoftFloat in
+/-- figures under "median" -/
+def midKey (s : Nat) (mid : List Rec) : List String :=
+  let fmc := ofNat (max mid.length 1)
+  (allocGetters.map fun g =>
+    let a := g ((mid.getD 0 default).alloc)
+    let b := if mid.length > 1 then g ((mid.getD 1 default).alloc) else 0
+    toString (div (div (add (ofNat a) (ofNat b)) fmc) (ofNat s))) ++
+  [toString (((mid.map (·.itemsPerIter)).foldl (· + ·) 0) / max mid.length 1)]
+
+/-- the figure groups of a statistics line after `D1 n.. t..`: each `[fastest, slowest, median, mean]` -/
+def statGroups (stats : String) : List (List String) :=
+  ((stats.splitOn " ").drop 3).flatMap fun p =>
+    let body := if p.startsWith "m" then (p.drop 1).toString else ((p.splitOn ":").getD 1 "")
+    (body.splitOn "/").map (·.splitOn ",")
+
+def distinctRecs (l : List Rec) : List Rec := l.eraseDups
+
+/-- `sort_unstable_by_key` leaves the order among samples of equal duration unspecified, so the figures
+    attached to fastest / slowest / median are those of *some* sample of the tied class. The model
+    takes the stable order unless the implementation's line names another member of the same class;
+    anything outside the class is a disagreement. -/
+def choosePicks (r : Req) (s : Nat) (recs : List Rec) (impl : String) : Picks :=
+  let n := recs.length
+  let sorted := recs.mergeSort fun a b => a.dur ≤ b.dur
+  let dflt : Picks := ⟨sorted.headD default, sorted.getLastD default, sliceMiddle sorted⟩
+  let gsI := statGroups impl
+  -- the implementation's figures, aligned with `edgeKey` / `midKey` (counter last, if present)
+  let useC : Bool := r.ic ∧ r.hasInputs
+  let trim (k : List String) : List String := if useC then k else k.take 10
+  let col (i : Nat) : List String := (gsI.take (if useC then 11 else 10)).map fun g => g.getD i ""
+  if gsI.length < (if useC then 11 else 10) then dflt else
+  let cls (d : Nat) : List Rec := distinctRecs (recs.filter (·.dur = d))
+  let first := ((cls dflt.first.dur).find? fun x => trim (edgeKey s x) = col 0).getD dflt.first
+  let last := ((cls dflt.last.dur).find? fun x => trim (edgeKey s x) = col 1).getD dflt.last
+  let mid :=
+    if trim (midKey s dflt.mid) = col 2 then dflt.mid else
+    match dflt.mid with
+    | [a] => (((cls a.dur).find? fun x => trim (midKey s [x]) = col 2).map fun x => [x]).getD dflt.mid
+    | [a, b] =>
+      let cands : List (List Rec) :=
+        if a.dur ≠ b.dur then (cls a.dur).flatMap fun x => (cls b.dur).map fun y => [x, y]
+        else
+          let all := recs.filter (·.dur = a.dur)
+          let ds := distinctRecs all
+          ds.flatMap fun x => ds.filterMap fun y =>
+            if x ≠ y ∨ (all.filter (· = x)).length ≥ 2 then some [x, y] else none
+      (cands.find? fun m => trim (midKey s m) = col 2).getD dflt.mid
+    | _ => dflt.mid
+  let _ := n
+  ⟨first, last, mid⟩
+
 open SoftFloat in
 /-- `compute_stats` -/
-def showStats (r : Req) (s : Nat) (recs : List Rec) : String :=
+def showStats (r : Req) (s : Nat) (recs : List Rec) (impl : String := "") : String :=
   let n := recs.length
   if n = 0 then                        -- no sample recorded: every figure is zero, no counter row
     "D1 n0,0 t0,0,0,0 m0,0,0,0/0,0,0,0 a0:0,0,0,0/0,0,0,0 a1:0,0,0,0/0,0,0,0 a2:0,0,0,0/0,0,0,0 a3:0,0,0,0/0,0,0,0" else
-  let idx := (List.range n).mergeSort fun i j => (recs.getD i default).dur ≤ (recs.getD j default).dur
-  let rec' (i : Nat) : Rec := recs.getD i default
-  let first := rec' (idx.headD 0)
-  let last := rec' (idx.getLastD 0)
-  let mid := (sliceMiddle idx).map rec'
+  let sortedD := (recs.map (·.dur)).mergeSort fun a b => a ≤ b
+  let pk := choosePicks r s recs impl
+  let first := pk.first
+  let last := pk.last
+  let mid := pk.mid
   let iters := s * n
   -- time statistics: `Stats.timeStats` on the sorted durations
-  let ts := Stats.timeStats s (idx.map fun i => (rec' i).dur)
+  let ts := Stats.timeStats s sortedD
   let tF := ts.fastest
   let tS := ts.slowest
   let tM := ts.median
@@ -311,23 +391,39 @@ structure Ev where
 def parseTrace (s : String) : List Ev :=
   ((s.splitOn ",").filter (· ≠ "")).filterMap fun t =>
     match t.toList with
-    | c :: rest => (String.ofList rest).toNat?.map fun v => ⟨c, v⟩
+    | c :: rest => if rest.isEmpty then some ⟨c, 0⟩ else (String.ofList rest).toNat?.map fun v => ⟨c, v⟩
     | [] => none
 
-/-- split a thread's events into samples: a sample ends where the next generation / start begins after drops or an end -/
+/-- split a thread's events into samples: a sample ends where, after its end timestamp (and the one
+    wait that follows it), the next generation / counting / start - or a further wait - begins -/
 def samplesOf (evs : List Ev) : List (List Ev) :=
-  let rec go (cur : List Ev) (seenStart : Bool) (acc : List (List Ev)) : List Ev → List (List Ev)
+  let rec go (cur : List Ev) (seenEnd postW : Bool) (acc : List (List Ev)) : List Ev → List (List Ev)
     | [] => if cur.isEmpty then acc.reverse else (cur.reverse :: acc).reverse
     | e :: rest =>
-      let startsNew := seenStart ∧ (e.k = 'g' ∨ e.k = 'c' ∨ e.k = 's')
-      if startsNew then go [e] (e.k = 's') (cur.reverse :: acc) rest
-      else go (e :: cur) (seenStart ∨ e.k = 's') acc rest
-  go [] false [] evs
+      let startsNew := seenEnd ∧ (e.k = 'g' ∨ e.k = 'c' ∨ e.k = 's' ∨ (e.k = 'W' ∧ postW))
+      if startsNew then go [e] false false (cur.reverse :: acc) rest
+      else go (e :: cur) (seenEnd ∨ e.k = 'e') (postW ∨ (seenEnd ∧ e.k = 'W')) acc rest
+  go [] false false [] evs
 
 def count (p : Ev → Bool) (l : List Ev) : Nat := (l.filter p).length
 
+/-- C08: where the barrier waits of a complete sample lie: two between the last generation/counting
+    and the start timestamp (the tally is cleared between them), one between the end timestamp and the
+    first drop, none anywhere else -/
+def waitsOk (smp : List Ev) : Bool :=
+  let ks := smp.map (·.k)
+  let pre := ks.takeWhile (· ≠ 's')
+  let mid := (ks.dropWhile (· ≠ 's')).takeWhile (· ≠ 'e')
+  let post := (ks.dropWhile (· ≠ 'e')).drop 1
+  let isW (c : Char) : Bool := c = 'W' ∨ c = 'w'
+  (pre.dropWhile (fun c => !isW c)) = ['W', 'w', 'W', 'w'] ∧ !mid.any isW ∧
+  post.take 2 = ['W', 'w'] ∧ !(post.drop 2).any isW
+
 /-- C01 + C02 on one sample of one thread (sized, identity-carrying values are checked by id) -/
-def sampleOk (r : Req) (complete : Bool) (smp : List Ev) : List String :=
+def sampleOk (r : Req) (complete : Bool) (smp0 : List Ev) : List String :=
+  let smp := smp0.filter fun e => e.k ≠ 'W' ∧ e.k ≠ 'w'
+  (if r.bar ∧ r.threads > 1 ∧ complete ∧ !waitsOk smp0 then
+     ["[C08] a sample does not wait twice (around the tally clear) before its start timestamp and once after its end timestamp"] else []) ++
   let sh := r.shape
   let pre := smp.takeWhile (·.k ≠ 's')
   let rest := smp.dropWhile (·.k ≠ 's')
@@ -402,7 +498,7 @@ def handle (args : List String) (obs : String) : Option Reply := do
   let stats :=
     if out.sim.panicked then "panic"
     else if r.isTest then "D1"
-    else showStats r out.st.sampleSize out.recs
+    else showStats r out.st.sampleSize out.recs ((obs.splitOn " | ").getD 0 "")
   let model := s!"{stats} | {showTraces out.sim} | V11"
   -- ---- spec on the implementation's observation
   let segs := obs.splitOn " | "
